@@ -162,6 +162,8 @@ var foreignRestore = []string{
 	"*filter\n:ADMIN-POD-FW - [0:0]\n-A FORWARD -d 10.244.1.0/24 -j ADMIN-POD-FW\n-A ADMIN-POD-FW -p udp -m multiport --dports 53,123 -j ACCEPT\n" +
 		"-A ADMIN-POD-FW -m set --match-set admin-denied src -j DROP\nCOMMIT\n",
 	"*filter\n:FORWARD DROP [0:0]\n-A FORWARD -s 10.244.0.0/16 -j ACCEPT\n-A FORWARD -d 10.244.0.0/16 -j ACCEPT\nCOMMIT\n",
+	// a chain nobody jumps to (any tool could delete it without the kernel objecting)
+	"*filter\n:LEGACY-FW - [0:0]\n-A LEGACY-FW -s 10.1.0.0/16 -j DROP\n-A LEGACY-FW -p tcp -m tcp --dport 22 -j ACCEPT\nCOMMIT\n",
 	"*nat\n:KUBE-HOSTPORTS - [0:0]\n:KUBE-HP-ABCDEFGHIJKLMNOP - [0:0]\n:KUBE-MARK-MASQ - [0:0]\n-A PREROUTING -m comment --comment \"kube hostport portals\" -m addrtype --dst-type LOCAL -j KUBE-HOSTPORTS\n" +
 		"-A KUBE-MARK-MASQ -j MARK --set-xmark 0x4000/0x4000\n-A KUBE-HOSTPORTS -p tcp -m comment --comment \"web_ns-a hostport 8080\" -m tcp --dport 8080 -j KUBE-HP-ABCDEFGHIJKLMNOP\n" +
 		"-A KUBE-HP-ABCDEFGHIJKLMNOP -s 10.244.1.9/32 -m comment --comment \"web_ns-a hostport 8080\" -j KUBE-MARK-MASQ\n" +
